@@ -16,11 +16,11 @@ cleanup() { cd /; git -C /repo worktree remove --force "$W/repo" >/dev/null 2>&1
 trap cleanup EXIT
 git apply --check "$D/patch.diff" || { echo "RESULT patch-does-not-apply"; exit 1; }
 # baseline failures of the packages (unmodified)
-base_fail=$(go test -count=1 "${PKGS[@]}" 2>&1 | grep -E '^(--- FAIL|FAIL)' | sort -u)
+base_fail=$(go test -count=1 "${PKGS[@]}" 2>&1 | grep -E '^\s*--- FAIL' | sed -E 's/ \([0-9.]+s\)//' | sort -u)
 git apply "$D/patch.diff"
 if ! go build ./... 2>&1 | tail -5; then echo "RESULT build-failed"; exit 1; fi
 go vet ./... >/dev/null 2>&1 || true
-mut_fail=$(go test -count=1 "${PKGS[@]}" 2>&1 | grep -E '^(--- FAIL|FAIL)' | sort -u)
+mut_fail=$(go test -count=1 "${PKGS[@]}" 2>&1 | grep -E '^\s*--- FAIL' | sed -E 's/ \([0-9.]+s\)//' | sort -u)
 new_fail=$(comm -13 <(echo "$base_fail") <(echo "$mut_fail"))
 cp "$D/demo_test.go" "$DEST"
 demo_pkg=./$(dirname "$DEST")
